@@ -8,6 +8,7 @@
 //!   tzsim show    --prop C20 --seed S --index I
 
 mod disk;
+mod free;
 mod gen;
 mod master;
 mod ops;
@@ -373,6 +374,18 @@ fn main() {
         Some("replay") => replay(&args[1..]),
         Some("fingerprints") => fingerprints(&args[1..]),
         Some("show") => show(&args[1..]),
+        Some("free") => {
+            // free-threaded run (for Miri): tzsim free --seed S [--verbose]
+            let seed: u64 = arg(&args, "--seed").and_then(|s| s.parse().ok()).unwrap_or(1);
+            let bad = free::run(seed, args.iter().any(|a| a == "--verbose"));
+            if bad > 0 {
+                println!("FREE-THREADED-MISMATCH seed={seed} mismatches={bad}");
+                1
+            } else {
+                println!("FREE-THREADED-OK seed={seed}");
+                0
+            }
+        }
         _ => {
             eprintln!("usage: tzsim check|worker|replay|fingerprints|show …");
             2
